@@ -1,6 +1,86 @@
-From Coq Require Import List ZArith Bool Lia.
-Require Import Pyrefact.SchedModel.
+(* C10 -- Rewrites are scheduled transactionally and never overlap.
+   Property theorems only; every proof is `exact <lemma>`; Print Assumptions under each. *)
+From Coq Require Import List ZArith Bool Lia Permutation Sorted.
+Import ListNotations.
+Require Import Pyrefact.SchedModel Pyrefact.SchedProofs Pyrefact.Splice.
 Open Scope Z_scope.
-Theorem overlaps_sym : forall a b, overlaps a b = overlaps b a.
-Proof. intros a b. unfold overlaps. apply andb_comm. Qed.
-Print Assumptions overlaps_sym.
+
+(* T10.1 atomicity: for every list of groups, every yield list and every transaction assignment,
+   the scheduled entries of a transaction are none, or exactly its (set-deduplicated) rewrites. *)
+Theorem T10_1_atomicity :
+  forall (T : Type) (teqb : T -> T -> bool) (tcmp : T -> T -> comparison),
+    (forall a b, teqb a b = true <-> a = b) ->
+  forall (ilines : list range) (groups : list (list (yielded T))) (key : tkey),
+    let got := filter (fun e => key_eqb (fst e) key) (schedule T teqb tcmp ilines groups) in
+    got = [] \/ Permutation (map snd got) (nodup_rw T teqb (tx_of T groups key)).
+Proof. exact schedule_atomic. Qed.
+Print Assumptions T10_1_atomicity.
+
+(* T10.2 disjointness: no two scheduled rewrites overlap. *)
+Theorem T10_2_disjointness :
+  forall (T : Type) (teqb : T -> T -> bool) (tcmp : T -> T -> comparison) (ilines : list range)
+         (groups : list (list (yielded T))),
+    ForallOrdPairs (fun a b => overlaps (rrng (snd a)) (rrng (snd b)) = false)
+                   (schedule T teqb tcmp ilines groups).
+Proof. exact schedule_disjoint. Qed.
+Print Assumptions T10_2_disjointness.
+
+(* T10.3 drop characterisation, both directions: a transaction is scheduled iff it exists, no
+   transaction with precedence has the same rewrite list, none of its ranges touches an ignored line,
+   it does not overlap itself, and it overlaps no *scheduled* transaction with precedence. *)
+Theorem T10_3_dropped_only_if :
+  forall (T : Type) (teqb : T -> T -> bool) (tcmp : T -> T -> comparison),
+    (forall a b, teqb a b = true <-> a = b) ->
+  forall (ilines : list range) (groups : list (list (yielded T))) (key : tkey),
+    In key (map fst (schedule T teqb tcmp ilines groups)) <->
+      tx_of T groups key <> []
+      /\ ~ (exists key', key_cmp key' key = Lt /\ tx_of T groups key' = tx_of T groups key)
+      /\ existsb (fun r => ignored ilines (rrng r)) (tx_of T groups key) = false
+      /\ self_conflict T (nodup_rw T teqb (tx_of T groups key)) = false
+      /\ (forall key', key_cmp key' key = Lt ->
+            In key' (map fst (schedule T teqb tcmp ilines groups)) ->
+            forall r r', In r (tx_of T groups key) -> In r' (tx_of T groups key') ->
+                         overlaps (rrng r) (rrng r') = false).
+Proof. exact schedule_drop_iff. Qed.
+Print Assumptions T10_3_dropped_only_if.
+
+(* T10.4 splice: sequential application in descending order of sorted, pairwise non-overlapping,
+   well-formed ranges is the simultaneous splice (untouched text verbatim and in order). *)
+Theorem T10_4_sequential_is_simultaneous :
+  forall (A : Type) (src : list A) (asc : list (nrw A)),
+    StronglySorted (lex_le A) asc ->
+    ForallOrdPairs (fun a b => noverlaps A a b = false) asc ->
+    Forall (wf A (length src)) asc ->
+    apply_desc A src asc = build A 0 src asc.
+Proof. exact sorted_disjoint_apply. Qed.
+Print Assumptions T10_4_sequential_is_simultaneous.
+
+(* T10.5 rollback: for every validity predicate the pass returns the source or a valid text, and an
+   invalid spliced candidate gives back exactly the source. *)
+Theorem T10_5_rollback :
+  forall (A : Type) (valid : list A -> bool) (restore : list A -> list A -> list A)
+         (src : list A) (rws : list (range * list A)),
+    (let r := apply_rewrites A valid restore src rws in r = src \/ valid r = true)
+    /\ (valid (apply_all A src rws) = false -> apply_rewrites A valid restore src rws = src).
+Proof. intros; split; [apply apply_rollback | apply apply_invalid_identity]. Qed.
+Print Assumptions T10_5_rollback.
+
+(* T10.7 bounded driving of fix()/chain(): at most max_iter passes, result is pass^n. *)
+Theorem T10_7_fix_bounded :
+  forall (A : Type) (pass : list A -> list A) (src_eqb : list A -> list A -> bool)
+         (max_iter : nat) (src : list A),
+    exists n, (n <= max_iter)%nat /\ fix_wrapper A pass src_eqb max_iter src = Nat.iter n pass src.
+Proof. exact fix_bounded. Qed.
+Print Assumptions T10_7_fix_bounded.
+
+(* non-vacuity: 3 groups, 5 transactions: one self-overlap, one duplicate, one cross-group conflict,
+   one on an ignored line; exactly one survives besides the first. *)
+Example T10_example :
+  map fst (schedule_text [(20, 30)]
+     [ [((0, 3), [1], Some 0); ((2, 5), [2], Some 0);          (* self-overlap *)
+        ((6, 9), [3], Some 1)];                                 (* accepted *)
+       [((6, 9), [3], Some 7);                                  (* duplicate of (0,1) *)
+        ((8, 12), [4], None)];                                  (* overlaps scheduled (0,1) *)
+       [((22, 23), [5], None); ((12, 15), [6], Some 2)] ])      (* ignored line; accepted *)
+  = [(2, 2); (0, 1)].
+Proof. vm_compute. reflexivity. Qed.
